@@ -57,13 +57,13 @@ CLAIMED.update({
                 note=_TRACE_NOTE + " Hidden state is only detectable if it changes a response, a document or a registry within the explored histories.", design_ref="3.8, 4 (C14)"),
     "C15": _trace("entry-point agreement records (7-14 public call paths per query/document) trace-validated by TLC against Eval!Find",
                   "For valid queries every path must realise Eval!Find's (items, tail): find = apply = list(finditer), find_one = first-or-None; for invalid queries every path raises the same JSONPathError class; recursion-limit environments included, also reconfigured after a query was compiled.", "4 (C15)"),
-    "C16": dict(technique="TLA+ state machine of k live iterators (Iters.tla): TLC enumerates every interleaving of next()/abandon (schedule kept in the state); each complete schedule replayed into real iterators; threaded runs trace-validated",
-                text="All interleavings over configurations with 2-3 live iterators (same compiled query, same environment, different environments; filters, nested filters, descendant segments) are replayed item by item; IterIndependence is also a TLC invariant. Threaded runs (2/4/8 threads, switch interval 1e-6, hand-over of one iterator between two threads) are validated as per-iterator sequences, so any merge order is accepted.",
-                note=_TRACE_NOTE + " Pre-emptive thread schedules are sampled, not enumerated.", design_ref="4 (C16)"),
+    "C16": dict(technique="TLA+ state machine of k live iterators (Iters.tla): TLC enumerates every interleaving of next()/abandon (schedule kept in the state); each complete schedule replayed into real iterators; threaded runs - under CPython's own scheduling and under a line-granularity pre-emptive scheduler (harness/sched.py) - trace-validated by TLC",
+                text="All interleavings over configurations with 2-3 live iterators (same compiled query, same environment, different environments; filters, nested filters, descendant segments) are replayed item by item; IterIndependence is also a TLC invariant. Threaded runs (2/4/8 threads, switch interval 1e-6, hand-over of one iterator between two threads) are validated as per-iterator sequences, so any merge order is accepted. Under the line-granularity scheduler every single pre-emption point of 16 scenarios (a shared compiled query on documents of different lengths / roots, a shared environment compiling two texts) is taken once, plus seeded schedules with two and three pre-emptions; each thread's result is judged by TLC.",
+                note=_TRACE_NOTE + " Pre-emptive schedules are enumerated for one pre-emption per run (at line granularity) and sampled beyond.", design_ref="4 (C16)"),
     "C17": dict(technique="TLA+ definition of the permitted orderings (DescentDefs!AllowedResults) and of the randomised visitor as a state machine (Descent.tla, T8a-c model-checked); the implementation's own random-choice tree explored exhaustively by an enumerating chooser and its result sets trace-validated by TLC for validity and exhaustiveness",
-                text="For each (query, document) the set of distinct results over ALL outcomes of the implementation's shuffles/samples is compared by TLC with AllowedResults: subset (only permitted orderings) and, when the choice tree was explored completely, equality (every permitted ordering is produced). Documents include the witness shapes (root with three container children) that size-bounded enumeration does not reach; the model's own visitor is checked against LinExts on the same shapes (T8b on all branches, T8c set equality).",
+                text="For each (query, document) the set of distinct results over ALL outcomes of the implementation's shuffles/samples is compared by TLC with AllowedResults: subset (only permitted orderings) and, when the choice tree was explored completely, equality (every permitted ordering is produced). Documents include the witness shapes (root with three container children) that size-bounded enumeration does not reach; the model's own visitor is checked against LinExts on the same shapes (T8b on all branches, T8c set equality). Wide documents (a queue of 40 and more) are judged through the container-only formulation AllowedResultsC (theorem T8e: the same set), with the first merge explored exhaustively.",
                 note=_TRACE_NOTE + " The chooser rebinds the name `random` in segments/selectors; any other source of randomness is reported as a machinery failure.", design_ref="3.7, 4 (C17)"),
-    "C18": dict(technique="TLA+ traversal machines over graph-shaped data (Descent.tla): outcome, progress, bound and termination model-checked on all 2-node graphs incl. every cycle; every terminal state materialised as real cyclic objects and run in both modes (all random outcomes); chains around the limit trace-validated",
+    "C18": dict(technique="TLA+ traversal machines over graph-shaped data (Descent.tla): outcome, progress, bound and termination model-checked on all 2-node graphs incl. every cycle; T8d_Linear (on cyclic graphs the error comes after O(limit) machine steps in both modes; the randomised machine has the depth probe of the code as its first phase); every terminal state materialised as real cyclic objects and run in both modes (all random outcomes); cyclic graphs under realistic limits with the executed lines of the traversal counted against the model's step bound; chains around the limit trace-validated",
                 text="T8d_Outcome (raised iff the unfolding's container nesting exceeds the limit, identically in both modes), T8d_Progress/T8d_Bounded (bounded time) and T8d_Terminates (liveness under fairness) are checked by TLC; each (graph, limit, mode) is then run for real with three queries, the nondeterministic mode under every outcome of the random choices; the limit is also changed on the environment after a query was compiled, the module-level functions and a plain environment are run on data nested 99..3000 deep and on cyclic data; chains of depth limit-1/limit/limit+1 for limits up to 120 and limits beyond the interpreter's recursion limit are validated by TLC against JsonVal!Nesting.",
                 note=_TRACE_NOTE + " Bounded time/memory of the Python code is observed (step bound from the model, wall-clock guard), not proved.", design_ref="3.7, 4 (C18)"),
     "C20": dict(technique="TLA+ phase machine of the CLI (Cli.tla, T12 model-checked over all 960 configurations); every terminal state run for real (in-process main() and subprocess)",
@@ -112,7 +112,7 @@ def main() -> None:
              "kind_free_text": "Apalache 0.58 symbolic model checker: discharges the inductive invariant of the RFC slice procedure (spec/SliceInd.tla) and the clamping lemma T4c (spec/ClampInd.tla) for unbounded integers; TLC checks the same procedure on small constants and exports its states"},
         ],
         "checks": checks,
-        "notes": "One TLA+ specification (/verif/spec) used in three TLC modes: MC, GEN (spec->code), TRACE (code->spec). See DESIGN.md. `./check EXTRA` (not a listed property) holds coverage beyond the list: TokenStream.tla replayed into tokens.TokenStream, the repository's own test suite trace-validated at the API boundary, and Lexer.tla bound to Lexer.run step by step through the env-guarded hook. `./check selftest` holds the RFC anchors, the corrupted-trace self-test and (thorough) the 264 seeded changes (each must be caught) and the 24 behaviour-preserving changes (each must stay quiet). Also beyond the list, in ./check EXTRA: Parser.tla / Evaluator.tla / Unparse.tla (the implementation-shaped parser and evaluator, refinement theorems T15 / T16 / T2) bound to the code by exported unit texts and pcompile records. Apalache discharges the unbounded slice invariant (SliceInd.tla) and the unbounded clamping lemma (ClampInd.tla) inside C07.",
+        "notes": "One TLA+ specification (/verif/spec) used in three TLC modes: MC, GEN (spec->code), TRACE (code->spec). See DESIGN.md. `./check EXTRA` (not a listed property) holds coverage beyond the list: TokenStream.tla replayed into tokens.TokenStream, the repository's own test suite trace-validated at the API boundary, and Lexer.tla bound to Lexer.run step by step through the env-guarded hook. `./check selftest` holds the RFC anchors, the corrupted-trace self-test and (thorough) the 336 seeded changes (each must be caught) and the 24 behaviour-preserving changes (each must stay quiet). Also beyond the list, in ./check EXTRA: Parser.tla / Evaluator.tla / Unparse.tla (the implementation-shaped parser and evaluator, refinement theorems T15 / T16 / T2) bound to the code by exported unit texts and pcompile records. Apalache discharges the unbounded slice invariant (SliceInd.tla) and the unbounded clamping lemma (ClampInd.tla) inside C07.",
         "not_applicable": na,
     }
     with open(os.path.join(VERIF, "MANIFEST.json"), "w") as fh:
